@@ -139,9 +139,13 @@ func (rule *RulePyflakes) runPyflakes(src string, pos *Pos) {
 func (rule *RulePyflakes) parseNextError(stdout []byte, pos *Pos) ([]byte, error) {
 	b := stdout
 
-	// Search the start of error message.
-	idx := bytes.Index(b, []byte("<stdin>:"))
-	if idx == -1 {
+	// Search the start of error message. It starts at the beginning of a line. "<stdin>:" in the middle of a line must
+	// be ignored since pyflakes echoes the source line on syntax error.
+	if bytes.HasPrefix(b, []byte("<stdin>:")) {
+		b = bytes.TrimPrefix(b, []byte("<stdin>:"))
+	} else if _, after, ok := bytes.Cut(b, []byte("\n<stdin>:")); ok {
+		b = after
+	} else {
 		// Syntax errors from pyflake consist of multiple lines. Skip subsequent lines. (#411)
 		// ```
 		// <stdin>:1:7: unexpected EOF while parsing
@@ -150,9 +154,8 @@ func (rule *RulePyflakes) parseNextError(stdout []byte, pos *Pos) ([]byte, error
 		// ```
 		return nil, nil
 	}
-	b = b[idx+len("<stdin>:"):]
 
-	idx = bytes.IndexByte(b, '\n')
+	idx := bytes.IndexByte(b, '\n')
 	if idx == -1 {
 		return nil, fmt.Errorf(`error message from pyflakes does not end with \n nor \r\n while checking script at %s. output: %q`, pos, stdout)
 	}
